@@ -186,6 +186,7 @@ Definition pstep (proto : N) (i : insn) (s : list pitem) : option (list pitem) :
   | IBinpersid => match s with PObj p :: t => push1 (PPers p) t | _ => None end
   | IProto _ => None                     (* handled by prun *)
   | IStop => None                        (* handled by prun *)
+  | _ => None                            (* memo / DUP / POP / mutation: Model/PyVM2.v *)
   end.
 
 (* instructions other than PROTO / STOP under a fixed announced protocol *)
